@@ -1243,6 +1243,8 @@ func (s *S3Proxy) ListObjectsV2(ctx context.Context, input *s3.ListObjectsV2Inpu
 		NextContinuationToken: out.NextContinuationToken,
 		Prefix:                out.Prefix,
 		KeyCount:              out.KeyCount,
+		StartAfter:            out.StartAfter,
+		EncodingType:          out.EncodingType,
 	}, nil
 }
 
